@@ -157,7 +157,7 @@ fn gen_item(r: &mut Rng, p: &mut Pools) -> Option<Shape> {
             Shape::Arg {
                 named,
                 metavar: *r.pick(&["A", "N", "VAL"][..]),
-                ty: *r.pick(&[Ty::Int, Ty::Int, Ty::Str, Ty::Os, Ty::Num][..]),
+                ty: *r.pick(&[Ty::Int, Ty::Int, Ty::Str, Ty::Os, Ty::Num, Ty::Int, Ty::Str, Ty::Path][..]),
                 adjacent,
             }
         }
@@ -999,7 +999,7 @@ fn value_token(r: &mut Rng, ty: Ty, invalid: bool) -> Tok {
     match ty {
         Ty::Int | Ty::Num => r.pick(&[b"1".to_vec(), b"2".to_vec(), b"30".to_vec()][..]).clone(),
         Ty::Str => r.pick(&[b"foo".to_vec(), b"bar".to_vec(), b"7".to_vec()][..]).clone(),
-        Ty::Os => r.pick(&[b"foo".to_vec(), vec![b'o', 0xff]][..]).clone(),
+        Ty::Os | Ty::Path => r.pick(&[b"foo".to_vec(), vec![b'o', 0xff]][..]).clone(),
     }
 }
 
@@ -1224,6 +1224,13 @@ pub fn gen_case(seed: u64, run: u64, faults: bool) -> Case {
                     let at = r.below(argv.len() + 1);
                     argv.insert(at, r.pick(&h).clone());
                 }
+                // shell completion with variables set: only R0, R1 and R7 apply to it
+                let comp = if r.chance(1, 5) {
+                    argv = gen::comp_argv(&mut r, &live[p]);
+                    Some(*r.pick(&[0usize, 1, 7, 8, 9][..]))
+                } else {
+                    None
+                };
                 Op::Run {
                     p,
                     argv,
@@ -1232,7 +1239,7 @@ pub fn gen_case(seed: u64, run: u64, faults: bool) -> Case {
                     } else {
                         None
                     },
-                    comp: None,
+                    comp,
                     cb: None,
                 }
             }
@@ -1326,7 +1333,7 @@ fn value_is_invalid(it: &Item, v: &[u8]) -> Option<bool> {
     }
     let utf8 = std::str::from_utf8(v).ok();
     let mut cur: val::Val = match it.ty {
-        Ty::Os => val::Val::Os(v.to_vec()),
+        Ty::Os | Ty::Path => val::Val::Os(v.to_vec()),
         Ty::Str => match utf8 {
             Some(s) => val::Val::Str(s.to_string()),
             None => return Some(true),
@@ -1610,6 +1617,10 @@ pub fn run_case(case: &Case, stats: &mut Stats) -> RunReport {
                             describe(&fresh)
                         )
                     );
+                }
+                if let Op::Run { comp: Some(_), .. } = op {
+                    stats.bump("probe.completion_with_declared_variables");
+                    continue;
                 }
                 // ---- R14: help shows the value of a variable, it never interprets it: on a
                 // line that only asks the top level for help, giving one variable another value
@@ -2084,7 +2095,7 @@ pub fn run_case(case: &Case, stats: &mut Stats) -> RunReport {
                                 {
                                     stats.bump("probe.alias_decided_the_value");
                                 }
-                                if it.ty == Ty::Os && std::str::from_utf8(v).is_err() {
+                                if matches!(it.ty, Ty::Os | Ty::Path) && std::str::from_utf8(v).is_err() {
                                     stats.bump("probe.non_utf8_reached_osstring");
                                 }
                                 stats.state(&["R3", &wrappers, first.outcome.class(), typed.outcome.class()]);
